@@ -30,12 +30,21 @@ CLAIMED = {
  "C15": ("routersim", "exploration", "DESIGN.md 5.1, 6/C15",
    "Retained-message history model (set / cleared / unspecified per topic, indexed by acceptance order); every forward flagged retain=1 must be the replay owed to a new non-shared subscription with a value held since that subscription was accepted; replay completeness at quiescence when it fits the window. Sampling, not proof.",
    ROUTER_NOTE, "deterministic simulation with seeded scheduler + retained-map reference model"),
- "C16": ("routersim", "exploration", "DESIGN.md 6/C16 (router half; the per-connection task half is netsim's)",
-   "Clients with wills ending by DISCONNECT packet or link failure at seeded points, PublishWill events as remote() sends them; the will is an accepted message of the reference model iff no DISCONNECT was processed, so it must reach each matching subscription exactly once and never otherwise. Exploration (seeded end points), router half only: the decision of remote() whether to send PublishWill is modelled by the link actor.",
-   ROUTER_NOTE, "deterministic simulation with seeded scheduler + will ledger"),
+ "C16": ("netsim+routersim", "fault_enumeration", "DESIGN.md 5.2, 6/C16",
+   "Full stack (real remote() task, Network, codecs, router on virtual time): for each seeded session of a client with a will, the connection is cut after EVERY byte offset of the session and, at frame boundaries, left silent until keep-alive expiry; the will must reach the watcher exactly once iff CONNECT was complete and no complete DISCONNECT was delivered; retain-as-registered checked at a later subscriber. The router half is additionally explored under the seeded scheduler (routersim) with a will ledger in the reference model.",
+   "Trusted: netsim harness (duplex transport, scripted clients using rumqttc codecs, paused tokio clock), the reference predicate for 'DISCONNECT processed'. Will-delay 0 only; takeover-before-will histories are excluded as the statement says.",
+   "deterministic simulation on virtual time, crash points (cut offsets) enumerated per seeded session"),
  "C17": ("routersim", "exploration", "DESIGN.md 5.1, 6/C17",
    "Ledger per (group, message): forwarded to at most one member, never twice (except at-least-once redelivery after an unacknowledged recipient left), per-member order, never to a non-member after it left, completeness at quiescence incl. forwards left in dead members' buffers; three strategies with the Random one driven by the choice stream. Sampling, not proof.",
    ROUTER_NOTE, "deterministic simulation with seeded scheduler + group ledger"),
+ "C19": ("netsim", "exploration", "DESIGN.md 5.2, 6/C19",
+   "Seeded connection-attempt histories against the real per-connection task (mqtt_connect, handle_auth, RemoteLink::new, router admission) on a v4 or v5 listener with four authentication configurations and small connection limits; a reference admission predicate decides each attempt (left open only where static and external credentials disagree), a witness observes whether a refused connection's SUBSCRIBE/PUBLISH had any effect, router snapshot invariants (distinct client ids, <= max_connections) after each attempt. Sampling, not proof.",
+   "Trusted: netsim harness, the reference predicate. Empty client ids get a UUID (not seamed: only accept/reject is judged).",
+   "deterministic simulation on virtual time + reference predicate"),
+ "C20": ("netsim", "exploration", "DESIGN.md 5.2, 6/C20",
+   "Publisher and subscriber on every pair of protocol versions through the real listeners' connection tasks; every subset of the 7 publish properties, publisher and broker topic aliases, subscription identifiers, QoS 0-2 handshakes, PINGRESP/SUBACK/UNSUBACK/DISCONNECT-with-reason notifications; the subscriber decodes the broker's bytes with the client codec of its version: same topic and payload, properties preserved towards v5 and absent towards v4, no connection task panics, no zombie registration. Sampling, not proof.",
+   "Trusted: netsim harness; rumqttc codecs as the decoding oracle on the client side.",
+   "deterministic simulation on virtual time + differential decode at the subscriber's transport"),
  "C13": ("logsim", "exploration", "DESIGN.md 5.5, 6/C13",
    "Seeded search over histories of appends interleaved with reads by independent cursor holders (fresh, stale, tag, continuation, fabricated cursors) on seeded segment geometries, each read checked against a reference vector; sampling, not proof.",
    "Trusted: the reference vector, and append()/_head_and_tail() as the observation of what is retained. Single-threaded (the log is owned by the router thread).",
